@@ -150,10 +150,18 @@ Proof.
     rewrite Ea. simpl. apply (IH G L ins D Hr Hi HG Hs).
   - (* ECall *)
     intros f IHf args IHa G L ins D Hok Hi HG Hs. simpl in Hok. apply andb_true_iff in Hok. destruct Hok as [H1 H2].
-    destruct (get_name f) as [g|] eqn:En; [|discriminate]. apply get_name_some in En; subst f.
-    simpl. apply (IHa G L ins D H2 Hi HG Hs).
+    destruct f; try discriminate.
+    + simpl. apply (IHa G L ins D H2 Hi HG Hs).
+    + apply andb_true_iff in H1. destruct H1 as [H1 _].
+      change (walk_e (ECall (EDot f f0) args) (WN G ins D)) with (wbind (walk_e (EDot f f0) (WN G ins D)) (walk_l args)).
+      eapply Wpost_seq; [apply (IHf G L ins D H1 Hi HG Hs)|intros D1; apply (IHa G L ins D1 H2 Hi HG Hs)|apply incl_refl].
   - (* EFun *)
     intros ps body _ G L ins D Hok. simpl in Hok. discriminate.
+  - (* EOp *)
+    intros o ex args IHa G L ins D Hok Hi HG Hs. simpl in Hok. simpl. apply (IHa G L ins D Hok Hi HG Hs).
+  - (* ELogic *)
+    intros isand a IHa b IHb G L ins D Hok Hi HG Hs. simpl in Hok. apply andb_true_iff in Hok. destruct Hok as [H1 H2].
+    simpl. eapply Wpost_seq; [apply (IHa G L ins D H1 Hi HG Hs)|intros D1; apply (IHb G L ins D1 H2 Hi HG Hs)|apply incl_refl].
   - intros G L ins D _ _ _ _. apply Wpost_id.
   - (* ECons *)
     intros e IHe r IHr G L ins D Hok Hi HG Hs. simpl in Hok.
@@ -190,4 +198,22 @@ Proof.
     assert (Ht' : false = true -> ["inputs"] = ["inputs"]) by reflexivity.
     destruct (IH false ["inputs"] _ [[]] D Hb Hni HG' Ht' (or_intror (conj eq_refl eq_refl))) as [D' [E [I1 A1]]].
     rewrite E. simpl. exists D'. split; [reflexivity|]. split; [exact I1|exact A1].
+  - (* SFunE *)
+    intros fx ps body IH top G L ins D Hok Hi HG Ht Hs. simpl in Hok.
+    apply andb_true_iff in Hok. destruct Hok as [Hok Hni]. apply andb_true_iff in Hok. destruct Hok as [Hok Hb].
+    apply andb_true_iff in Hok. destruct Hok as [Htop _].
+    subst top. destruct Hs as [->|[_ C]]; [|discriminate]. apply negb_true_iff in Hni.
+    rewrite (Ht eq_refl) in *.
+    assert (HG' : Gok ["inputs"] (ps ++ hoist_vars body)) by (apply Gok_inputs; exact Hni).
+    assert (Ht' : false = true -> ["inputs"] = ["inputs"]) by reflexivity.
+    simpl. apply (IH false ["inputs"] _ [] D Hb Hni HG' Ht' (or_introl eq_refl)).
+  - (* SFor *)
+    intros fi IHi fc IHc fu IHu fb IHb top G L ins D Hok Hi HG Ht Hs. simpl in Hok.
+    apply andb_true_iff in Hok. destruct Hok as [Hok H4]. apply andb_true_iff in Hok. destruct Hok as [Hok H3].
+    apply andb_true_iff in Hok. destruct Hok as [H1 H2].
+    assert (Hs' : ins = [] \/ ins = [[]] /\ false = false) by (destruct Hs as [->|[-> _]]; auto).
+    assert (Ht' : false = true -> G = ["inputs"]) by discriminate.
+    simpl. eapply Wpost_seq; [apply (IHi false G L ins D H1 Hi HG Ht' Hs')| |apply incl_refl].
+    intros D1. eapply Wpost_seq; [apply (IHc G L ins D1 H2 Hi HG (shape_of _ _ Hs))| |apply incl_refl].
+    intros D2. eapply Wpost_seq; [apply (IHu G L ins D2 H3 Hi HG (shape_of _ _ Hs))|intros D3; apply (IHb false G L ins D3 H4 Hi HG Ht' Hs')|apply incl_refl].
 Qed.
